@@ -521,8 +521,9 @@ package vuego
 //@   modifies caches(v)
 //@ func (v *Vue) splitObjectItems(content) (r)
 //@   modifies nothing
-//@ func (v *Vue) parseObjectPairs(ctx, content, quoteStrings) (r)
+//@ func (v *Vue) parseObjectPairs(ctx, content, classObject) (r)
 //@   modifies caches(v)
+//@   assert C03.class.truthiness.uniform: classObject at "call evalConditionExpr"
 // Interpolation scanner (C02: static neighbours are concatenated with the value's string form): every static segment
 // runs from the end of the previous mustache to the first "{{" after it, a mustache ends at the first "}}" after its
 // opening braces, and the tail after the last mustache is copied.
